@@ -48,7 +48,8 @@ def check_doc(sh, cid, text, value, lines, cmds, origin, beyond):
         elif err != 0:
             key, what = "C01/%s/valid-text-rejected" % mname, "valid text rejected with error %d at %d" % (err, end)
         elif dump != exp_default:
-            if nulkey and dump == refjson.dump(trunc_keys(value), saturate=True):
+            # the listed finding, modelled exactly: every member name is cut at its first NUL *as the members arrive*
+            if nulkey and dump == refjson.dump(refjson.parse(text, key_hook=lambda k: k.split(b"\0")[0]), saturate=True):
                 key = "C01/member-name-contains-U+0000"
                 what = "member name containing U+0000 is truncated at the NUL"
             else:
@@ -199,7 +200,7 @@ def run(tier, seed):
     bdir = build.build("asan")
     exe = bdir + "/jcdrv"
     chk = core.Check(PID, tier, seed)
-    ndocs = 40000 if tier == "quick" else 1000000
+    ndocs = 200000 if tier == "quick" else 2000000
     sh = core.parallel(shard_fn, seed=seed, tier=tier, exe=exe, ndocs=ndocs)
     chk.absorb(sh)
     chk.rule = ("documents drawn value-first by gen/docs.py (random surface form: whitespace, escape forms, raw vs escaped, "
